@@ -636,11 +636,14 @@ class Mapping2D3D:
         ]
 
         while True:
-            matches = defaultdict(set)
+            # lists in input order, not sets: the stable sort below then breaks
+            # ties of the scoring key the same way under every PYTHONHASHSEED
+            matches = defaultdict(list)
 
             for base_pair in canonical:
-                matches[base_pair.nt1_3d].add(base_pair)
-                matches[base_pair.nt2_3d].add(base_pair)
+                for residue in (base_pair.nt1_3d, base_pair.nt2_3d):
+                    if base_pair not in matches[residue]:
+                        matches[residue].append(base_pair)
 
             for pairs in matches.values():
                 if len(pairs) > 1:
